@@ -296,7 +296,7 @@ func init() {
 			g.mesh3("ConvexPolytope.Mesh", "rotated-pyramid", 2, func() *model3d.Mesh { return pyramid(ap, rot).Mesh() })
 		}
 		// extruded profiles: polyomino outlines (Bitmap.Mesh) and rectangles
-		for i := 0; i < 5*scale; i++ {
+		for i := 0; i < 12*scale; i++ {
 			bmp := model2d.NewBitmap(4, 4)
 			n := 0
 			for j := 0; j < 16; j++ {
@@ -310,6 +310,14 @@ func init() {
 			}
 			z0 := float64(rng.Intn(3) - 1)
 			z1 := z0 + float64(1+rng.Intn(3))
+			if i%2 == 1 {
+				// heights in tenths: z0 + (z1 - z0) is not z1 for about a quarter of such pairs
+				z0 = float64(rng.Intn(41)-20) / 10
+				z1 = float64(rng.Intn(41)-20) / 10
+				for z1 <= z0 {
+					z1 += float64(1+rng.Intn(30)) / 10
+				}
+			}
 			g.mesh3("ProfileMesh", "bitmap-outline", -99, func() *model3d.Mesh { return model3d.ProfileMesh(bmp.Mesh(), z0, z1) })
 		}
 		// box sets: histories of Add / Remove / AddRectSet / RemoveRectSet
